@@ -1,4 +1,5 @@
 import FuraxProofs.Props.C16
+import FuraxProofs.Props.C16Closed
 #print axioms Furax.C16.rotation_is_ZYZ
 #print axioms Furax.C16.rotated_x_axis_is_unit
 #print axioms Furax.C16.projection_spec
@@ -7,3 +8,7 @@ import FuraxProofs.Props.C16
 #print axioms Furax.C16.acquisition_real
 #print axioms Furax.C16.ptp_is_hit_count_diagonal
 #print axioms Furax.C16.rotations_cancel_in_ptp
+#print axioms Furax.C16.projection_closed
+#print axioms Furax.C16.acquisition_closed_IQU
+#print axioms Furax.C16.acquisition_reduced_closed
+#print axioms Furax.C16.ptp_closed
